@@ -104,13 +104,19 @@ def unfold_guards(func):
                     if isinstance(st, ast.If) and not st.orelse and len(st.body) == 1 and isinstance(st.body[0], ast.Raise) \
                             and isinstance(st.test, ast.UnaryOp) and isinstance(st.test.op, ast.Not):
                         rest = b[i + 1:]
-                        if not always_exits(rest) or any(isinstance(x, (ast.FunctionDef, ast.ClassDef)) for x in rest):
+                        if any(isinstance(x, (ast.FunctionDef, ast.ClassDef)) for x in rest):
                             continue
-                        new_if = ast.If(test=st.test.operand, body=rest, orelse=[])
+                        if always_exits(rest):
+                            new_if = ast.If(test=st.test.operand, body=rest, orelse=[])
+                            tail = [st.body[0]]
+                        else:
+                            # (e.g. inside a loop body) the rest falls through: the raise becomes the else branch
+                            new_if = ast.If(test=st.test.operand, body=rest, orelse=[st.body[0]])
+                            tail = []
                         ast.copy_location(new_if, st)
                         new_if.end_lineno = getattr(rest[-1], "end_lineno", None)
                         new_if.end_col_offset = getattr(rest[-1], "end_col_offset", None)
-                        b[i:] = [new_if, st.body[0]]
+                        b[i:] = [new_if] + tail
                         changed = True
                         break
                 if changed:
